@@ -1,4 +1,8 @@
-"""C09 — no event history or failing task takes the driver down (DESIGN §3 C09)."""
+"""C09 — no event history or failing task takes the driver down (DESIGN §3 C09).
+
+The real backend() of the current tree runs on the scripted runtime of env/net.c.  One execution = one fault plan
+(chosen first) + one history of external events (one event per call of async_runtime_wait) + a fixed epilogue.
+Every (plan, history) pair within the bounds of a part is executed; nothing is merged or sampled."""
 import vlib
 LEVEL = "model_checking"
 NETWRAPS = ["socket", "bind", "listen", "setsockopt", "getsockname", "accept", "recv", "send", "close", "write",
@@ -7,12 +11,65 @@ C09WRAPS = ["longjmp"]
 SRC = ["h/h_c09.c", "env/net.c", "wrap/w_backend_nl.c", "wrap/w_errctx_nl.c", "wrap/w_call_out_nl.c"]
 
 def build(ck):
-    return {"h_c09": ck.harness("h_c09", SRC, replace_stem=["backend.c", "error_context.c"], wraps=vlib.STD_WRAPS + NETWRAPS + C09WRAPS)}
+    return {"h_c09": ck.harness("h_c09", SRC, replace_stem=["backend.c", "error_context.c"],
+                                wraps=vlib.STD_WRAPS + NETWRAPS + C09WRAPS)}
+
+RULE = ("every pair (plan, history) is executed on the real backend()/comm.c/error_context.c/call_out.c. "
+        "plan = {no fault} + {task kind that raises an uncaught error() in {connect (user object's create under master "
+        "connect), logon, process_input, verb via add_action, write_prompt, net_dead, heart_beat of object 0/1/2 of three, "
+        "call_out chain 0/1/2 of three, reset, clean_up, terminal_type (telnet suboption), input_to callback} x {1st, 2nd "
+        "execution} x {once, every time from then on} x master error_handler {logs, itself raises}} + {one hostile operation "
+        "run by the verb `act`: input_to/get_char with an existing and a non-existent function, second input_to, exec() onto a "
+        "new object, snoop, destruct of the command giver (verb returns 1 / 0), destruct of another user (1 / 0), "
+        "remove_call_out, set_heart_beat(0), ed} x {network mode, console mode}. "
+        "history = all sequences of length D over the events enabled at each wait: nothing, timer tick +1 s, timer tick +2 s "
+        "(+900 s in the reset/clean_up plans), a client connects (at most M connects), console line `act` (console mode), and "
+        "per connected client: data `pi`, data `ng CR LF`, data `act CR LF`, `act CR LF` followed by a silent close (the driver "
+        "finds out through EPIPE), hang-up seen as recv()==0, hang-up seen as EVENT_CLOSE, IAC SB TTYPE IS x IAC SE (telnet "
+        "plan); starting from a driver on which no connection was ever made (all_users == NULL), with three heart-beat "
+        "objects, three call_out chains, one object with reset() and one with clean_up() created before backend() is "
+        "entered. A timer tick is reported the way the epoll runtime reports async_runtime_wakeup(): one event, no context. "
+        "epilogue: pending close notifications, then `.`, `Q`, `ping` from every still connected user and four more ticks, "
+        "with quiet cycles in between until every buffered command is consumed")
+
+ASSUME = ["one external event per wait (plus level-triggered write readiness); the scripted recv() hands over everything the client sent, "
+          "send() accepts everything unless the client has closed (then EPIPE)",
+          "console mode: stdin is a terminal (isatty()=1), so losing the console user does not stop the driver",
+          "uncaught errors are raised with the error() efun; limits (eval cost, stack) are C04's subject",
+          "a user whose own connect/logon raised is not expected to be served; a user whose own command raises in the "
+          "epilogue (every-time faults) is not expected to get its pong",
+          "total output per client stays below the 4096-byte ring (asserted)",
+          "timer callbacks arrive between cycles (the timer thread itself is C19's subject)"]
+
+def parts(tier):
+    core = ["--handlers=1", "--nths=1"]
+    if tier == "quick":
+        return [("d3-all", ["--depth=3", "--maxconn=2"], 150), ("d4-core", ["--depth=4", "--maxconn=2"] + core, 170)]
+    return [("d4-all", ["--depth=4", "--maxconn=2"], 1300), ("d5-core", ["--depth=5", "--maxconn=2"] + core, 1000)]
 
 def run(ck):
     exe = build(ck)["h_c09"]
-    ck.explore(exe, ["--depth=3"], "d3", budget=0, deadline_s=200)
-    ck.finish(vlib.mc_coverage(ck.parts, "wip"), assumptions=[])
+    for tag, args, dl in parts(ck.tier):
+        ck.explore(exe, args, tag, budget=0, deadline_s=dl, timeout_ms=30000)
+    cov = vlib.mc_coverage(ck.parts, RULE, extra={
+        "plans": "286 (143 per mode: 1 without fault + 128 fault plans + 14 hostile operations); 'core' parts use error_handler=logs, 1st execution only (94 plans)",
+        "depth_per_part": {p["part"]: p["args"] for p in ck.parts},
+        "histories_completed": sum(p.get("counters", {}).get("histories_completed", 0) for p in ck.parts),
+        "errors_injected": sum(p.get("counters", {}).get("errors_injected", 0) for p in ck.parts)})
+    ck.finish(cov, assumptions=ASSUME)
 
 def selftest(ck):
-    return 1
+    """break the environment / the mudlib / the oracle's input; the oracle must fire"""
+    exe = build(ck)["h_c09"]
+    bad = 0
+    want = {1: "C09:user-not-served", 2: "C09:healthy-heart-beat-not-called", 3: "C09:error-not-reported"}
+    for st, key in want.items():
+        ck2 = vlib.Check("C09", "quick", 0, LEVEL)
+        # network mode, error_handler logs; connect first so that the known tick-before-connection crash is not in the way
+        args = ["--depth=2", "--modes=1", "--handlers=1", "--nths=1", "--everys=1", "--hostile=0", "--selftest=%d" % st]
+        ck2.explore(exe, args, "selftest%d" % st, budget=0, jobs=8)
+        if key not in ck2.fails:
+            print("SELFTEST-FAILED C09 variant %d did not raise %s (got %s)" % (st, key, sorted(ck2.fails)[:6])); bad = 1
+        else:
+            print("selftest %d ok: %s x%d" % (st, key, ck2.fails[key].get("count", 1)))
+    return bad
